@@ -11,6 +11,7 @@ import (
 	"go/constant"
 	"go/parser"
 	"go/token"
+	"go/types"
 	"path/filepath"
 	"reflect"
 	"strconv"
@@ -61,17 +62,23 @@ func parseTag(t *TagF, s string) error {
 	return nil
 }
 
-// goType records the shape of a field's Go type.
+func isByteIdent(e ast.Expr) bool {
+	id, ok := ast.Unparen(e).(*ast.Ident)
+	return ok && (id.Name == "byte" || id.Name == "uint8")
+}
+
+// goType records the shape of a field's Go type (parentheses are immaterial).
 func goType(t *TagF, e ast.Expr) {
+	e = ast.Unparen(e)
 	if at, ok := e.(*ast.ArrayType); ok && at.Len == nil {
-		if id, ok := at.Elt.(*ast.Ident); ok && id.Name == "byte" {
+		if isByteIdent(at.Elt) {
 			t.Scalar = 9
 			return
 		}
 		t.Rep = true
-		e = at.Elt
+		e = ast.Unparen(at.Elt)
 		if at2, ok := e.(*ast.ArrayType); ok && at2.Len == nil {
-			if id, ok := at2.Elt.(*ast.Ident); ok && id.Name == "byte" {
+			if isByteIdent(at2.Elt) {
 				t.Scalar = 9
 				return
 			}
@@ -83,7 +90,7 @@ func goType(t *TagF, e ast.Expr) {
 	}
 	if st, ok := e.(*ast.StarExpr); ok {
 		t.Ptr = true
-		e = st.X
+		e = ast.Unparen(st.X)
 	}
 	switch x := e.(type) {
 	case *ast.Ident:
@@ -104,9 +111,9 @@ func recvName(fd *ast.FuncDecl) string {
 	if fd.Recv == nil || len(fd.Recv.List) != 1 {
 		return ""
 	}
-	e := fd.Recv.List[0].Type
+	e := ast.Unparen(fd.Recv.List[0].Type)
 	if st, ok := e.(*ast.StarExpr); ok {
-		e = st.X
+		e = ast.Unparen(st.X)
 	}
 	if id, ok := e.(*ast.Ident); ok {
 		return id.Name
@@ -115,8 +122,9 @@ func recvName(fd *ast.FuncDecl) string {
 }
 
 func typeIdent(e ast.Expr) []string {
+	e = ast.Unparen(e)
 	if st, ok := e.(*ast.StarExpr); ok {
-		e = st.X
+		e = ast.Unparen(st.X)
 	}
 	if id, ok := e.(*ast.Ident); ok {
 		return splitU(id.Name)
@@ -124,24 +132,73 @@ func typeIdent(e ast.Expr) []string {
 	return nil
 }
 
+// stubImporter resolves every import to an empty package: the generated files are
+// type-checked only for what they say about themselves (constant values, which
+// named type a constant has); everything that needs the protobuf / grpc runtime
+// fails to resolve and is ignored.
+type stubImporter struct{}
+
+func (stubImporter) Import(path string) (*types.Package, error) {
+	name := path
+	if i := strings.LastIndex(name, "/"); i >= 0 {
+		name = name[i+1:]
+	}
+	p := types.NewPackage(path, name)
+	p.MarkComplete()
+	return p, nil
+}
+
+// looseCheck runs go/types over the files of one generated package with all
+// imports stubbed and all errors tolerated. What survives is exactly what the
+// translator wants to read semantically instead of by literal shape: the values
+// of the package's own constants (iota, conversions, expressions over other
+// constants, any literal spelling) and their types.
+func looseCheck(fset *token.FileSet, files []*ast.File) (info *types.Info) {
+	info = &types.Info{
+		Defs:  map[*ast.Ident]types.Object{},
+		Uses:  map[*ast.Ident]types.Object{},
+		Types: map[ast.Expr]types.TypeAndValue{},
+	}
+	defer func() { recover() }() // a checker crash on half-resolvable code leaves what was recorded so far
+	conf := types.Config{Importer: stubImporter{}, Error: func(error) {}, DisableUnusedImportCheck: true, FakeImportC: true}
+	conf.Check("generated", fset, files, info)
+	return info
+}
+
+// constOf is the constant value go/types computed for e, if any.
+func constOf(info *types.Info, e ast.Expr) constant.Value {
+	if info == nil {
+		return nil
+	}
+	if tv, ok := info.Types[e]; ok && tv.Value != nil {
+		return tv.Value
+	}
+	return nil
+}
+
 func goBindings(repo, ver string) *GoBind {
 	g := &GoBind{}
-	if err := pbgoFacts(g, filepath.Join(repo, "api", ver, "api.pb.go")); err != nil {
+	fset := token.NewFileSet()
+	pb, err := parser.ParseFile(fset, filepath.Join(repo, "api", ver, "api.pb.go"), nil, parser.SkipObjectResolution)
+	if err != nil {
 		return &GoBind{Err: err.Error()}
 	}
-	if err := grpcFacts(g, filepath.Join(repo, "api", ver, "api_grpc.pb.go")); err != nil {
+	grpc, err := parser.ParseFile(fset, filepath.Join(repo, "api", ver, "api_grpc.pb.go"), nil, parser.SkipObjectResolution)
+	if err != nil {
+		return &GoBind{Err: err.Error()}
+	}
+	info := looseCheck(fset, []*ast.File{pb, grpc})
+	if err := pbgoFacts(g, pb, info); err != nil {
+		return &GoBind{Err: err.Error()}
+	}
+	if err := grpcFacts(g, grpc, info); err != nil {
 		return &GoBind{Err: err.Error()}
 	}
 	g.sort()
 	return g
 }
 
-func pbgoFacts(g *GoBind, file string) error {
-	fset := token.NewFileSet()
-	f, err := parser.ParseFile(fset, file, nil, parser.SkipObjectResolution)
-	if err != nil {
-		return err
-	}
+func pbgoFacts(g *GoBind, f *ast.File, info *types.Info) error {
 	structs := map[string]*ast.StructType{}
 	intTypes := map[string]bool{}
 	var order []string
@@ -152,7 +209,7 @@ func pbgoFacts(g *GoBind, file string) error {
 		}
 		for _, s := range gd.Specs {
 			ts := s.(*ast.TypeSpec)
-			switch t := ts.Type.(type) {
+			switch t := ast.Unparen(ts.Type).(type) {
 			case *ast.StructType:
 				structs[ts.Name.Name] = t
 				order = append(order, ts.Name.Name)
@@ -174,7 +231,7 @@ func pbgoFacts(g *GoBind, file string) error {
 			tag, _ := strconv.Unquote(fl.Tag.Value)
 			if v, ok := reflect.StructTag(tag).Lookup("protobuf_oneof"); ok {
 				g.Oneofs = append(g.Oneofs, GoOneofF{splitU(name), v})
-				if id, ok := fl.Type.(*ast.Ident); ok {
+				if id, ok := ast.Unparen(fl.Type).(*ast.Ident); ok {
 					ifaceOwner[id.Name] = name
 				}
 			}
@@ -198,7 +255,7 @@ func pbgoFacts(g *GoBind, file string) error {
 		for _, fl := range st.Fields.List {
 			for _, n := range fl.Names {
 				if n.Name == "state" {
-					if se, ok := fl.Type.(*ast.SelectorExpr); ok && se.Sel.Name == "MessageState" {
+					if se, ok := ast.Unparen(fl.Type).(*ast.SelectorExpr); ok && se.Sel.Name == "MessageState" {
 						isMsg = true
 					}
 				}
@@ -234,6 +291,10 @@ func pbgoFacts(g *GoBind, file string) error {
 			g.Tags = append(g.Tags, t)
 		}
 	}
+	// Enum constants: every package-level constant whose type is one of the
+	// package's own int32 types. Type and value are what go/types computed (so
+	// `X T = 1`, `X = T(1)`, iota blocks and hex literals are the same fact);
+	// the literal reading is the fallback when the checker recorded nothing.
 	for _, d := range f.Decls {
 		gd, ok := d.(*ast.GenDecl)
 		if !ok || gd.Tok != token.CONST {
@@ -241,11 +302,26 @@ func pbgoFacts(g *GoBind, file string) error {
 		}
 		for _, s := range gd.Specs {
 			vs := s.(*ast.ValueSpec)
-			id, ok := vs.Type.(*ast.Ident)
-			if !ok || !intTypes[id.Name] {
-				continue
-			}
 			for i, n := range vs.Names {
+				if n.Name == "_" {
+					continue
+				}
+				if c, ok := info.Defs[n].(*types.Const); ok && c.Val() != nil && c.Val().Kind() != constant.Unknown {
+					nt, ok := c.Type().(*types.Named)
+					if !ok || nt.Obj().Pkg() != c.Pkg() || !intTypes[nt.Obj().Name()] {
+						continue
+					}
+					v, exact := constant.Int64Val(constant.ToInt(c.Val()))
+					if !exact {
+						return fmt.Errorf("constant %s: not an integer", n.Name)
+					}
+					g.Consts = append(g.Consts, ConstF{splitU(nt.Obj().Name()), splitU(n.Name), int(v)})
+					continue
+				}
+				id, ok := ast.Unparen(vs.Type).(*ast.Ident)
+				if vs.Type == nil || !ok || !intTypes[id.Name] {
+					continue
+				}
 				if i >= len(vs.Values) {
 					return fmt.Errorf("constant %s has no value", n.Name)
 				}
@@ -314,11 +390,12 @@ func identsWithSuffix(n ast.Node, suffix string) []string {
 	return out
 }
 
-func grpcFacts(g *GoBind, file string) error {
-	fset := token.NewFileSet()
-	f, err := parser.ParseFile(fset, file, nil, parser.SkipObjectResolution)
-	if err != nil {
-		return err
+func grpcFacts(g *GoBind, f *ast.File, info *types.Info) error {
+	str := func(e ast.Expr) (string, bool) {
+		if v := constOf(info, e); v != nil && v.Kind() == constant.String {
+			return constant.StringVal(v), true
+		}
+		return strLit(e)
 	}
 	implOf := map[string]string{} // client stub struct -> service
 	for _, d := range f.Decls {
@@ -332,9 +409,9 @@ func grpcFacts(g *GoBind, file string) error {
 							continue
 						}
 						if d.Tok == token.CONST && strings.HasSuffix(n.Name, "_FullMethodName") {
-							v, ok := strLit(s.Values[i])
+							v, ok := str(s.Values[i])
 							if !ok {
-								return fmt.Errorf("%s is not a string literal", n.Name)
+								return fmt.Errorf("%s is not a string constant", n.Name)
 							}
 							p := strings.Split(v, "/")
 							if len(p) != 3 || p[0] != "" {
@@ -343,7 +420,7 @@ func grpcFacts(g *GoBind, file string) error {
 							g.GConsts = append(g.GConsts, GConstF{splitU(n.Name), splitDot(p[1]), p[2]})
 						}
 						if d.Tok == token.VAR && strings.HasSuffix(n.Name, "_ServiceDesc") {
-							if err := serviceDesc(g, n.Name, s.Values[i]); err != nil {
+							if err := serviceDesc(g, n.Name, s.Values[i], str); err != nil {
 								return err
 							}
 						}
@@ -440,8 +517,8 @@ func grpcFacts(g *GoBind, file string) error {
 	return nil
 }
 
-func serviceDesc(g *GoBind, varName string, e ast.Expr) error {
-	cl, ok := e.(*ast.CompositeLit)
+func serviceDesc(g *GoBind, varName string, e ast.Expr, strLit func(ast.Expr) (string, bool)) error {
+	cl, ok := ast.Unparen(e).(*ast.CompositeLit)
 	if !ok {
 		return fmt.Errorf("%s is not a composite literal", varName)
 	}
